@@ -1115,6 +1115,22 @@ class C07(core.Property):
         # (c) identity below the bound (decided exactly; inexact norms are generated away from the bound)
         if nrm2 <= fM * fM and got != [float(np.float32(v)) for v in xf]:
           fail('identity', f'norm {float(nrm)} <= bound {float(fM)} but result {got} != input {xf}')
+        # (d) C07_clip_shrinks / C07_clip_idempotent: the norm never grows, and clipping the result again with the
+        # same bound changes nothing (up to the rounding of the first result's norm around the bound)
+        inn = math.sqrt(sum(v * v for v in xf))
+        if on > inn * (1 + 1e-5) + 1e-30:
+          fail('norm', f'norm of the result {on} exceeds the norm of the input {inn}')
+        if not problems:
+          try:
+            out2 = self.tu.tree_clip_by_global_norm(out, M)
+            outs.append(out2)
+            got2 = self._flat(out2)
+            over = max(0.0, on / float(fM) - 1.0) if float(fM) > 0 else 0.0
+            if len(got2) != len(got) or any(not (abs(a - b) <= (over + 1e-5) * scale_in) for a, b in zip(got2, got)):
+              fail('idempotent', f'clipping the clipped tree again changed it: {got} -> {got2}')
+            ctx.count('clip_idempotent_checked')
+          except Exception as e:
+            fail('raised', f'second tree_clip_by_global_norm raised {type(e).__name__}: {str(e)[:120]}')
     for k, msg in self._harm(snap, outs):
       fail(k, msg)
     ctx.count('monitor_inputs_unharmed', len(snap[0]))
